@@ -137,6 +137,7 @@ class _LogCatcher(logging.Handler):
 _DROP_LOGS = (
     ("Got non-SOCKS packet", "NONSOCKS"),
     ("Got datagram from unknown host", "UNKNOWNHOST"),
+    ("Got SOCKS packet addressed to its own sender", "SELFADDR"),
     ("Received unexpected message", "PRESESSION"),
     ("Wasn't able to claim session", "UNCLAIMED"),
     ("Couldn't open circuit", "COULDNTOPEN"),
@@ -506,7 +507,10 @@ def spec_classify(impl: Impl, scen: dict):
     banned = impl_banned()
     out = []
     for ev in scen["events"]:
+        if out:
+            out[-1]["amb"] = prevA["amb"]
         A = assoc[ev["p"]]
+        prevA = A
         viewer = tuple(scen["protos"][ev["p"]]["client"])
         src = tuple(ev["src"])
         data = unhx(ev["data"])
@@ -608,9 +612,17 @@ def spec_classify(impl: Impl, scen: dict):
                 o = impl.oracle(r[1])
                 if o is not None and o[0] == UCC:
                     A["amb"] = True
+                # the association trusts the client's IP, not a port: another local process that addresses a
+                # SOCKS datagram to an address on the client's IP (e.g. the viewer's) makes the proxy learn that
+                # address as "far" - the residual of finding #20 that /repo dc82116 leaves by design
+                # (C06_discard_isolated_two_ports_refuted); nothing can be demanded afterwards
+                if r[0][0] == "ip" and r[0][1] == viewer[0]:
+                    A["amb"] = True
             out.append({"cls": "EITHER", "why": "other source on the client's IP"})
         else:
             out.append({"cls": "DISCARD", "why": "unknown-host"})
+    if out:
+        out[-1]["amb"] = prevA["amb"]
     return out
 
 
@@ -647,15 +659,14 @@ def _strip(scen, idx):
 
 
 def _poisoned_before(scen, idx):
-    """was a datagram addressed to an address on the client's IP that is later used as a source"""
+    """was a datagram addressed to its own sender, and did that sender send again (regression of /repo dc82116)"""
     for k, ev in enumerate(scen["events"][:idx]):
         r = rfc_parse(unhx(ev["data"]))
         if r is None or r[0][0] != "ip":
             continue
         dst = (r[0][1], r[0][2])
-        client_ip = scen["protos"][ev["p"]]["client"][0]
-        if dst[0] != client_ip:
-            continue
+        if dst != tuple(ev["src"]):
+            continue                    # finding #20 proper: addressed to its own sender
         if any(e2["p"] == ev["p"] and tuple(e2["src"]) == dst for e2 in scen["events"][k + 1:idx + 1]):
             return True
     return False
@@ -734,7 +745,10 @@ def check_property(impl: Impl, scen: dict, events=None, isolation=True, iso_limi
         for idx in idxs:
             ev2, _, sstate2, _ = impl.run(_strip(scen, idx))
             others = events[:idx] + events[idx + 1:]
+            ospec = spec[:idx] + spec[idx + 1:]
             for k, (a, b) in enumerate(zip(others, ev2)):
+                if ospec[k].get("amb"):
+                    continue            # nothing can be demanded of an association once it is ambiguous
                 if a[1] != b[1]:
                     real = k if k < idx else k + 1
                     f = fail("discarding a datagram (%s) must not disturb the delivery of another datagram"
@@ -744,7 +758,7 @@ def check_property(impl: Impl, scen: dict, events=None, isolation=True, iso_limi
                     if _poisoned_before(scen, real):
                         f["class"] = POISON_CLASS
                     return f
-            if sstate != sstate2:
+            if sstate != sstate2 and not any(sp.get("amb") for sp in spec):
                 return fail("discarding a datagram (%s) must not disturb the session's state" % spec[idx]["why"], idx,
                             {"with": sstate, "without": sstate2})
     return None
